@@ -2,6 +2,8 @@
 From Coq Require Import ZArith Arith List Bool Sorting.Sorted.
 From B2Z Require Import Model.Regions Proofs.RegionsProofs Proofs.RegionsRefine.
 From B2Z Require Import Base.NpPrims Gen.GenRegions Bridge.BridgeRegions.
+From B2Z Require Import Base.Prims Base.OffPrims Gen.GenOffsets Bridge.BridgeOffsets.
+From B2Z Require Gen.GenBins.
 Import ListNotations.
 Open Scope Z_scope.
 
@@ -93,6 +95,33 @@ Example translated_regions_instance :
   gen_regions 5 (fun c => if c =? 4 then 7 else 0) (rcs [(0%nat, 1); (0%nat, 200); (2%nat, 50)]) (rss [(0%nat, 1); (0%nat, 200); (2%nat, 50)])
   = [GR 0 (Some 1) (Some 199); GR 0 (Some 200) None; GR 1 None None; GR 2 (Some 1) (Some 49); GR 2 (Some 50) None; GR 4 None None].
 Proof. vm_compute. reflexivity. Qed.
+
+(* ---- TRANSLATOR TIE: the offsets tables, CSIIndex.offsets and TabixIndex.offsets as regenerated from the
+   source on this run (translator/offs2coq.py -> Gen/GenOffsets.v; the bin helpers are the py2coq translations).
+   CSI: for EVERY index geometry, any number of contigs and bins in ANY on-disk order (pseudo-bins skipped), with
+   loffsets below 2^64 and bins the first-locus helper accepts, the translated function returns the model's table
+   -- per contig the (loffset, first locus) keys sorted LEXICOGRAPHICALLY (the repair of F1), emitted as (file
+   offset, contig, position). *)
+Theorem translated_offsets_csi : forall min_shift depth fl bins, Forall (contig_ok min_shift depth fl) bins ->
+  gen_offsets_csi min_shift depth bins
+  = Ok (map conv_entry (offsets_csi (map (keys_of (GenBins.bin_limit min_shift depth + 1) fl) bins))).
+Proof. exact translated_offsets_csi_lemma. Qed.
+Print Assumptions translated_offsets_csi.
+
+(* tabix: the vectorised construction (hstack / full / arange) is the model's table: slot i of contig c at position
+   i * 16384 + 1 *)
+Theorem translated_offsets_tbi : forall linear, Forall (Forall in64) linear ->
+  gen_offsets_tbi linear = map conv_entry (offsets_tbi linear).
+Proof. exact translated_offsets_tbi_lemma. Qed.
+Print Assumptions translated_offsets_tbi.
+
+(* F1's input class on the translated source: a level-5 bin stored BEFORE its level-4 ancestor with the same
+   loffset comes out after it *)
+Example translated_offsets_instance :
+  gen_offsets_csi 14 5 [[(4682, 6553600); (585, 6553600); (37450, 0)]; []; [(4681, 13107200)]]
+  = Ok [(100, (0, 1)); (100, (0, 16385)); (200, (2, 1))] /\
+  gen_offsets_tbi [[65536; 131072]; []; [196608]] = [(1, (0, 1)); (2, (0, 16385)); (3, (2, 1))].
+Proof. vm_compute. split; reflexivity. Qed.
 
 (* CSI: with the (fixed) lexicographic sort of (loffset, first locus) and htslib's monotone
    loffsets, the emitted positions of a contig are non-decreasing ... *)
